@@ -2707,6 +2707,11 @@ class Pos(Unaryop):
     _operator_repr = "+"
 
 
+def _is_increasing_selection(partitions):
+    partitions = list(partitions)
+    return all(a < b for a, b in zip(partitions[:-1], partitions[1:]))
+
+
 class Partitions(Expr):
     """Select one or more partitions"""
 
@@ -2717,6 +2722,9 @@ class Partitions(Expr):
         return self.frame._meta
 
     def _divisions(self):
+        if not _is_increasing_selection(self.partitions):
+            # Reordered or repeated partitions are not sorted by index anymore
+            return (None,) * (len(self.partitions) + 1)
         divisions = []
         for part in self.partitions:
             divisions.append(self.frame.divisions[part])
@@ -2791,6 +2799,9 @@ class PartitionsFiltered(Expr):
             return full_divisions
 
         # Specific case: Specific partitions were selected
+        if not _is_increasing_selection(self._partitions):
+            # Reordered or repeated partitions are not sorted by index anymore
+            return (None,) * (len(self._partitions) + 1)
         new_divisions = []
         for part in self._partitions:
             new_divisions.append(full_divisions[part])
